@@ -146,6 +146,56 @@ static void handle(int argc, char **argv) {
         if (cif) cif_destroy(cif);
         for (i = 0; i < n; i++) free(names[i]);
         free(names);
+    } else if (argc >= 6 && (!strcmp(argv[1], "mapset") || !strcmp(argv[1], "mapdel") || !strcmp(argv[1], "tclone"))) {
+        /* ladder mapset <T|P> <n> <key>*n <key> <shape…|~> <k>   cif_value_set_item_by_key / cif_packet_set_item
+           ladder mapdel <T|P> <n> <key>*n <key> <keep 0|1> <k>   cif_value_remove_item_by_key / cif_packet_remove_item
+           ladder tclone T <n> <key>*n <shape…> <k>               cif_value_clone of a table whose n entries all have <shape>
+           <key> = <orig-hex>[:<norm-hex>] (only the original spelling is used here); the map holding the n keys is built
+           before the window through the same public functions, every entry with the character value 'hi'
+           (tclone: with a value of <shape>) */
+        int is_pkt = !strcmp(argv[2], "P"), n = atoi(argv[3]), i, op = argv[1][3] == 's' ? 0 : argv[1][3] == 'd' ? 1 : 2;
+        cif_value_tp *tbl = NULL, *hi = NULL, *val = NULL, *out = NULL, *w = NULL;
+        cif_packet_tp *pkt = NULL;
+        UChar txt[] = { 'h', 'i', 0 }, *key = NULL, **keys;
+        int have_val = 0, keep = 0;
+        if (n < 0 || n > 2000 || argc < 4 + n + 2 || (is_pkt && op == 2)) { OUT("bad-op"); return; }
+        keys = (UChar **) calloc(n + 1, sizeof(UChar *));
+        for (i = 0; i < n; i++) { char *c = strchr(argv[4 + i], ':'); if (c) *c = 0; unhex(argv[4 + i], &keys[i], NULL); }
+        pos = 4 + n;
+        if (op != 2) { char *c = strchr(argv[pos], ':'); if (c) *c = 0; unhex(argv[pos], &key, NULL); pos++; }
+        if (op == 1) { keep = atoi(argv[pos++]); }
+        else if (!strcmp(argv[pos], "~")) pos++;
+        else { val = mk(argv, argc, &pos); have_val = 1; }
+        if (pos != argc - 1 || (have_val && !val)) { OUT("bad-op"); goto mapdone; }
+        cif_value_create(CIF_UNK_KIND, &hi); cif_value_copy_char(hi, txt);
+        if (is_pkt) cif_packet_create(&pkt, NULL); else cif_value_create(CIF_TABLE_KIND, &tbl);
+        for (i = 0; i < n; i++) {
+            int r = is_pkt ? cif_packet_set_item(pkt, keys[i], hi) : cif_value_set_item_by_key(tbl, keys[i], op == 2 ? val : hi);
+            if (r != CIF_OK) { OUT("setup-failed"); goto mapdone; }
+        }
+        verif_arm(0, atol(argv[pos]));
+        ARM();
+        if (op == 0) rc = is_pkt ? cif_packet_set_item(pkt, key, val) : cif_value_set_item_by_key(tbl, key, val);
+        else if (op == 1) rc = is_pkt ? cif_packet_remove_item(pkt, key, keep ? &out : NULL) : cif_value_remove_item_by_key(tbl, key, keep ? &out : NULL);
+        else rc = cif_value_clone(tbl, &w);
+        DISARM();
+        summary(rc);
+        /* keep using the map: enumerate and read every item, then release everything (all under ASan + leak accounting) */
+        {
+            const UChar **nm = NULL; int cnt = 0;
+            cif_value_tp *m = op == 2 ? w : tbl;
+            if (op == 2 && rc != CIF_OK) m = NULL;
+            if (is_pkt ? cif_packet_get_names(pkt, &nm) == CIF_OK : (m && cif_value_get_keys(m, &nm) == CIF_OK)) {
+                for (i = 0; nm[i]; i++) { cif_value_tp *x = NULL; cnt++; if ((is_pkt ? cif_packet_get_item(pkt, nm[i], &x) : cif_value_get_item_by_key(m, nm[i], &x)) != CIF_OK || !x) OUT(" !ITEM%d", i); else { FILE *f = fopen("/dev/null", "w"); fdump_value(f, x); fclose(f); } }
+                free(nm);
+                OUT(" items=%d", cnt);
+            } else if (op == 2 && !m) OUT(" items=0");
+        }
+        if (out) cif_value_free(out);
+      mapdone:
+        cif_value_free(w); cif_value_free(tbl); cif_packet_free(pkt); cif_value_free(hi); cif_value_free(val);
+        for (i = 0; i < n; i++) free(keys[i]);
+        free(keys); free(key);
     } else if (argc >= 4 && !strcmp(argv[1], "deser")) {
         /* serialise a list value (un-armed), then deserialise the blob onto a fresh value object, as GET_VALUE_PROPS does */
         cif_value_tp *v, *dest = NULL;
